@@ -76,6 +76,9 @@ type passConn struct {
 	judged     bool
 	served     bool // C20: at least one message relayed
 	nextHigh   int64
+	// the serving cluster does not end the stream when the proxy half-closes it (a stalled or
+	// lazy peer): only the cancellation of the outgoing context can release the proxy's reader
+	noEndOnClose bool
 }
 
 type PassWorld struct {
@@ -206,6 +209,7 @@ var badShardValues = []string{
 func (w *PassWorld) open(bad bool) *passConn {
 	id := len(w.conns) + 1
 	pc := &passConn{id: id, bad: bad, name: fmt.Sprintf("c%d", id), nextHigh: 100}
+	pc.noEndOnClose = w.s.Draw(3) == 2
 	md := map[string]string{
 		history.MetadataKeyClientClusterID: "1",
 		history.MetadataKeyClientShardID:   strconv.Itoa(1 + (id-1)%int(maxi32(1, common.LCM(w.cfg.Local, w.cfg.Remote)))),
@@ -340,7 +344,7 @@ func (w *PassWorld) Actions() []simrt.Action {
 			if st.LenC2S() > 0 {
 				add("srv-recv:"+pc.name, 8, false, func() { w.srvRecv(pc) })
 			}
-			if st.ClientClosedSend && !st.ServerEnded && !st.Dead() {
+			if st.ClientClosedSend && !st.ServerEnded && !st.Dead() && !pc.noEndOnClose {
 				add("srv-end:"+pc.name, 6, false, func() { st.ServerFinish(nil) })
 			}
 			if st.StallCloseSend && pc.terminal != "" && w.s.Now()-pc.terminalAt > 2500*time.Millisecond {
